@@ -1,6 +1,137 @@
 import Driver.Util
-/-! Model driver stub (owned by the StateCache work package). -/
+import Verif.Model.StateCacheConc
+import Verif.Gen.StateCacheFacts
+/-! Model driver for the state-cache suites c06 / c07 / c08 (`modeld sc`).
+Op language: see /verif/go/harness/sccommon.go and suite_c08.go. Handles, keys, block hashes and values are strings;
+"-" is the empty block hash. -/
 namespace Driver.StateCache
-def step (s : Unit) (_w : List String) : Unit × String := (s, "unimplemented")
-def main : IO Unit := Driver.loop () step
+open Verif.SC Driver
+
+abbrev S := Sys String String String String
+
+/-- regenerated from core/statecache/statecache.go on every run: lru.New(200) in StateCache.commit -/
+def capPerKey : Nat := Verif.Gen.StateCacheFacts.capPerKey
+/-- regenerated: maxHisDepth := 2000 in NewStateCache (also the capacity of hashCache) -/
+def maxHisDepth : Nat := Verif.Gen.StateCacheFacts.maxHisDepth
+
+def initSys : S := Sys.new capPerKey maxHisDepth
+
+def hashOf (s : String) : String := if s = "-" then "" else s
+
+def outStr : Out String → String
+  | .ok => "ok"
+  | .hit v => "hit " ++ v
+  | .miss => "miss"
+  | .panic => "panic"
+  | .bad => "bad-op"
+
+def hex4 (n : Nat) : String :=
+  String.ofList [hexChar (n / 4096 % 16), hexChar (n / 256 % 16), hexChar (n / 16 % 16), hexChar (n % 16)]
+
+def stepOp (s : S) (op : Op String String String String) : S × String :=
+  let (s', o) := s.step op
+  (s', outStr o)
+
+def runOps (s : S) (ops : List (Op String String String String)) : S := (s.run ops).1
+
+def rlabel : RPc String String → String
+  | .cache => "get.cache"
+  | .link _ _ => "get.link"
+  | .entry _ _ _ => "get.entry"
+  | .memo _ => "get.memo"
+  | .done _ => "done"
+
+def clabel : CPc String String String → String
+  | .start => "commit.lock"
+  | .linkcheck => "commit.linkcheck"
+  | .keyGet _ => "commit.cacheget"
+  | .keyAdd _ _ => "commit.add"
+  | .keyPut _ _ => "commit.cacheput"
+  | .publish => "commit.publish"
+  | .done _ => "done"
+
+def tlabel (c : Conc String String String) (t : Nat) : String :=
+  match c.threads[t]? with
+  | some (.reader r) => rlabel r.pc
+  | some (.committer m) => clabel m.pc
+  | none => "?"
+
+/-- run thread `t` until it is finished (bounded) -/
+def finish (c : Conc String String String) (t : Nat) (trace : List String) : Nat → Conc String String String × List String
+  | 0 => (c, trace)
+  | fuel + 1 =>
+    if c.enabled t then finish (c.step t) t (s!"{t}:{tlabel c t}" :: trace) fuel else (c, trace)
+
+def runConc (s : S) (bid order readers sched : String) : S × String :=
+  match alookup s.bcs bid with
+  | none => (s, "bad-op")
+  | some bc =>
+    let writes :=
+      if order = "-" then bc.cache
+      else (order.splitOn ",").filterMap (fun k => (alookup bc.cache k).map (fun e => (k, e)))
+    let rds : List (Thread String String String) :=
+      if readers = "-" then []
+      else (readers.splitOn ",").map (fun r =>
+        match r.splitOn "@" with
+        | [k, h] => Thread.reader (Reader.init k (hashOf h))
+        | _ => Thread.reader (Reader.init r ""))
+    let c0 : Conc String String String :=
+      { sc := s.sc, lock := none, threads := Thread.committer ⟨bc.hash, bc.prev, writes, .start⟩ :: rds }
+    let n := c0.threads.length
+    -- launch prologue: the committer takes sc.lock before its first yield point
+    let c1 := c0.step 0
+    let (c2, tr) := (if sched = "-" then [] else sched.toList).foldl (fun (acc : Conc String String String × List String) ch =>
+      let t := ch.toNat - 48
+      let (c, tr) := acc
+      if t < n && c.enabled t then (c.step t, s!"{t}:{tlabel c t}" :: tr) else (c, tr)) (c1, [])
+    let (c3, tr) := (List.range n).foldl (fun (acc : Conc String String String × List String) t =>
+      finish acc.1 t acc.2 100000) (c2, tr)
+    let eff := match c3.threads[0]? with
+      | some (.committer m) => (match m.pc with | .done true => true | _ => false)
+      | _ => false
+    let bc' := if eff then { bc with cache := [] } else bc
+    let rs := (c3.results.drop 1).zipIdx.map (fun (r, i) =>
+      let v := match r with
+        | some (some v) => "hit:" ++ v
+        | some none => "miss"
+        | none => "unfinished"
+      s!"r{i + 1}={v}")
+    ({ s with sc := c3.sc, bcs := aset s.bcs bid bc' },
+     " ".intercalate (("c=ok" :: rs) ++ ["trace=" ++ ",".intercalate tr.reverse]))
+
+def step (s : S) (w : List String) : S × String :=
+  match w with
+  | ["mode", _] => (s, "ok")
+  | ["blk", b, h, p] => stepOp s (.blk b (hashOf h) (hashOf p))
+  | ["bhash", b, h] => stepOp s (.bhash b (hashOf h))
+  | ["txn", t, b] => stepOp s (.txn t b)
+  | ["qtxn", t, h] => stepOp s (.qtxn t (hashOf h))
+  | ["tset", t, k, v] => stepOp s (.tset t k v)
+  | ["trem", t, k] => stepOp s (.trem t k)
+  | ["tget", t, k] => stepOp s (.tget t k)
+  | ["tcommit", t] => stepOp s (.tcommit t)
+  | ["bset", b, k, v] => stepOp s (.bset b k v)
+  | ["bget", b, k] => stepOp s (.bget b k)
+  | ["bcommit", b] => stepOp s (.bcommit b)
+  | ["qget", h, k] => stepOp s (.qget (hashOf h) k)
+  | ["sget", k, h] => stepOp s (.sget k (hashOf h))
+  | ["chain", n, pfx, prev, key, val] =>
+    let n := n.toNat!
+    let (s', _) := (List.range n).foldl (fun (acc : S × String) j =>
+      let (s, prev) := acc
+      let h := pfx ++ toString (j + 1)
+      let ops : List (Op String String String String) :=
+        [.blk h h prev] ++ (if j = 0 && key ≠ "-" then [.bset h key val] else []) ++ [.bcommit h]
+      (runOps s ops, h)) (s, hashOf prev)
+    (s', "ok")
+  | ["fan", n, pfx, prev, key, vp] =>
+    let n := n.toNat!
+    let s' := (List.range n).foldl (fun (s : S) j =>
+      let h := pfx ++ toString (j + 1)
+      runOps s [.blk h h (hashOf prev), .bset h key (vp ++ hex4 (j + 1)), .bcommit h]) s
+    (s', "ok")
+  | ["conc", bid, order, readers, sched] => runConc s bid order readers sched
+  | _ => (s, "bad-op")
+
+def main : IO Unit := Driver.loop initSys step
 end Driver.StateCache
